@@ -15,10 +15,10 @@ CFG = dict(
                 "converted pixel values and whole arenas must agree. All 6 alternatives, all 36 ordered pairs in the variant x variant, "
                 "variant x concrete and concrete x variant forms, every shape of the tier; incompatible pairs must throw std::bad_cast with "
                 "the destination arena unchanged. Deep/shallow copy semantics and recreate are observed on owning any_images. Overloads "
-                "that do not instantiate at all are reported by build probes."),
+                "that do not instantiate at all would be reported as build failures of their part."),
     level_note=("trusts the concrete GIL operation as the reference (C02/C04 judge those) and the hand-written compatibility classes; "
                 "only nearest-neighbour resampling; ASan+UBSan at -O0"),
-    technique="differential execution variant vs concrete object on cloned byte arenas; build probes for overloads that fail to instantiate",
+    technique="differential execution variant vs concrete object on cloned byte arenas, ASan+UBSan",
     rule=("one case per (operation, form, alternative or ordered pair of alternatives); inside a case every shape w,h of the tier "
           "(25 quick / 64 thorough), for sub-images every rectangle, for sub-sampling steps 1..3 x 1..3. evaluations = comparisons "
           "variant-vs-concrete made; distinct_nontrivial = (operation, form, pair, shape[, rectangle/step]) tuples, distinct by "
@@ -33,10 +33,14 @@ CFG = dict(
                  "compatibility classes written by hand: {gray8}, {gray16}, {rgb8, rgb8 planar, bgr8}, {rgba8}",
                  "binary algorithms are given views of equal dimensions (their precondition)",
                  "equal_pixels / operator== include the planar alternative (F2 fixed in /repo); -DC14_EQ_WITHOUT_PLANAR restores the reduced list",
-                 "nth_channel_view / transposed_view of a variant are complete checks (parts 8, 9) that are only build probes while the overloads do not instantiate"],
+                 "nth_channel_view / transposed_view of a variant (parts 8, 9) did not instantiate before the fix: commits in /repo"],
     tus=[tu("c14_asan%d" % k, SRC, "asan", extra=X + ["-DC14_PART=%d" % k]) for k in range(NPARTS)]
-        + [tu("c14_probe_transposed", SRC, "asan", extra=X + ["-DC14_PART=8"], probe="transposed_view"),
-           tu("c14_probe_nth_channel", SRC, "asan", extra=X + ["-DC14_PART=9"], probe="nth_channel_view")],
-    runs=[run("c14_asan%d" % k, shards={"quick": 2, "thorough": 6}, min_cases={"quick": CASES[k], "thorough": CASES[k]}) for k in range(NPARTS)],
+        # parts 8 (transposed_view) and 9 (nth_channel_view) of a variant did not instantiate on the pinned
+        # tree (reported as uninstantiable probes); since the fix: commits 6dacda3 / db95fec they are ordinary runs
+        + [tu("c14_asan8", SRC, "asan", extra=X + ["-DC14_PART=8"]),
+           tu("c14_asan9", SRC, "asan", extra=X + ["-DC14_PART=9"])],
+    runs=[run("c14_asan%d" % k, shards={"quick": 2, "thorough": 6}, min_cases={"quick": CASES[k], "thorough": CASES[k]}) for k in range(NPARTS)]
+        + [run("c14_asan8", shards=2, min_cases={"quick": 6, "thorough": 6}),
+           run("c14_asan9", shards=2, min_cases={"quick": 6, "thorough": 6})],
     require_obs=["binary.compatible", "binary.bad_cast", "binary.converted", "equal.compatible", "equal.bad_cast", "fill.compatible", "fill.bad_cast"],
 )
